@@ -383,6 +383,9 @@ def main(argv=None):
         }
         os.makedirs(os.path.join(VERIF, "evidence"), exist_ok=True)
         json.dump(ev, open(os.path.join(VERIF, "evidence", prop + ".json"), "w"), indent=1, default=repr)
+        if a.tier == "thorough":      # keep a copy of the last thorough run next to the (quick) evidence that vp check rewrites
+            os.makedirs(os.path.join(VERIF, "evidence_thorough"), exist_ok=True)
+            json.dump(ev, open(os.path.join(VERIF, "evidence_thorough", prop + ".json"), "w"), indent=1, default=repr)
     if violations:
         return 1
     if problems:
